@@ -33,14 +33,17 @@ SpecOK(h) ==
 
 (* The list of chunks is computed once, in the initial state (definitions  *)
 (* that depend on IOEnv are not cached by TLC).                             *)
-VARIABLES i, visit
-vars == <<i, visit>>
-Init == i = 1 /\ visit = Visit
-Next == i < Len(visit) /\ i' = i + 1 /\ UNCHANGED visit
+(* NB: the variable names must not coincide with any parameter name used  *)
+(* in Registration.tla (measured: a variable called i makes TLC stop       *)
+(* caching constant definitions such as StrideRanges; 30 x slower).        *)
+VARIABLES mcPos, mcVisit
+vars == <<mcPos, mcVisit>>
+Init == mcPos = 1 /\ mcVisit = Visit
+Next == mcPos < Len(mcVisit) /\ mcPos' = mcPos + 1 /\ UNCHANGED mcVisit
 Spec == Init /\ [][Next]_vars
 
-ChunkOK == i <= Len(visit) =>
-             \A h \in (visit[i] * Chunk)..(visit[i] * Chunk + Chunk - 1) : SpecOK(h)
+ChunkOK == mcPos <= Len(mcVisit) =>
+             \A h \in (mcVisit[mcPos] * Chunk)..(mcVisit[mcPos] * Chunk + Chunk - 1) : SpecOK(h)
 
 ---------------------------------------------------------------------------
 (* Constant-level checks.                                                   *)
